@@ -122,6 +122,18 @@ func (s *JavaRefactorListener) EnterLambdaParameters(ctx *LambdaParametersContex
 	}
 }
 
+// a bare name in an expression - `int k = MAX;`, `a > MAX`, `new int[MAX]`, `@Size(max = MAX)` - refers to
+// something the file declares or imports (a statically imported constant, an enum constant): it is a reference
+func (s *JavaRefactorListener) EnterPrimary(ctx *PrimaryContext) {
+	if ctx.Identifier() == nil {
+		return
+	}
+	startLine := ctx.GetStart().GetLine()
+	stopLine := ctx.GetStop().GetLine()
+	field := model.JField{Name: ctx.Identifier().GetText(), Source: node.Pkg, StartLine: startLine, StopLine: stopLine}
+	node.AddField(field)
+}
+
 func (s *JavaRefactorListener) EnterMethodCall(ctx *MethodCallContext) {
 	if ctx.Identifier() == nil {
 		// this(...) and super(...) name no method
